@@ -123,12 +123,14 @@ def sh(cmd, cwd=None, env=None, timeout=None):
     return r
 
 
-def run(repo, shard, nshards, budget_s):
+def run(repo, shard, nshards, budget_s, reverse=False):
     assert repo != "/repo" and os.path.isdir(repo)
     all_sites = sites()
     mine = [s for k, s in enumerate(all_sites) if k % nshards == shard]
+    if reverse:
+        mine.reverse()
     os.makedirs(os.path.join(HERE, "automutants"), exist_ok=True)
-    outp = os.path.join(HERE, "automutants", f"results_{shard}.jsonl")
+    outp = os.path.join(HERE, "automutants", f"results_{shard}{'r' if reverse else ''}.jsonl")
     env = dict(os.environ, CARGO_NET_OFFLINE="true", CARGO_TARGET_DIR=os.path.join(repo, "target"))
     cenv = dict(os.environ, VERIF_EVIDENCE_DIR=os.path.join(HERE, "scratch", "evidence-of-broken-trees"), VERIF_REPO=repo, VERIF_WATCHDOG_S="1500")
     ct = os.path.join(HERE, "mc", "Cargo.toml")
@@ -181,6 +183,6 @@ if __name__ == "__main__":
     elif len(a) >= 2 and a[1] == "run":
         repo = a[a.index("--repo") + 1]
         i, n = a[a.index("--shard") + 1].split("/")
-        run(repo, int(i), int(n), float(a[a.index("--budget-s") + 1]))
+        run(repo, int(i), int(n), float(a[a.index("--budget-s") + 1]), reverse="--reverse" in a)
     else:
         raise SystemExit(__doc__)
